@@ -1,7 +1,7 @@
 # Registry of checks: property id -> jobs (harness entry points), bounds, assumptions.
 CHECKS = {}
 
-_c20_bases_q = [0, 1700000000000000000, 1700000000999500000, 2085978494900000000]
+_c20_bases_q = [0, 1700000000000000000, 1700000000999800000, 2085978494900000000]
 _c20_bases_t = _c20_bases_q + [1000000000, 946684800000000000, 1767225600000000000, 1999999999999400000, 1234567890123456789, 4294967296000000000 // 4, 1500000000500000000, 2000000000000000000]
 CHECKS["C20"] = dict(
     jobs=[
@@ -83,10 +83,11 @@ CHECKS["C06"] = dict(
     jobs=[dict(pkg="pkg/report", entry="HC06Jitter", params=dict(lastbase=lb, dbase=db, tsbits=12, elbits=20, jbits=20), optional_covers=["timestamp wrapped between packets"])
           for (lb, db) in ((4294967000, 0), (0, 0), (2147483000, 0), (100000, 4294960000), (5000, 2147481000))] + [
         dict(pkg="pkg/report", entry="HC06Loss", params=dict(packets=3, fwd=3, back=3), thorough=dict(params=dict(packets=4, fwd=4, back=4), timeout=3400)),
+        dict(pkg="pkg/report", entry="HC06LossStep", params=dict(maxjump=6), require_covers=["jump across the sequence wrap"]),
         dict(pkg="pkg/report", entry="HC06SR", params=dict(elbase=0)),
         dict(pkg="pkg/report", entry="HC06SR", params=dict(elbase=65535999000000)),
     ],
-    bounds=dict(quick="jitter: one update from an arbitrary state (jitter any multiple of 1/16 < 65536, elapsed < 2^20 ns) for 5 windows of (last timestamp, timestamp step) of 2^12 x 2^12 values incl. both directions of the 2^32 wrap and the 2^31 half-range; loss accounting: 3 packets (jumps +-3, any base incl. sequence wrap), report after a symbolic prefix and at the end, bitmap of 64 packets (size=1 word, same code as 128 words); LSR/DLSR: two SRs, elapsed window [0,2^20) ns at base 0 and at the 2^32-unit wrap of DLSR",
+    bounds=dict(quick="jitter: one update from an arbitrary state (jitter any multiple of 1/16 < 65536, elapsed < 2^20 ns) for 5 windows of (last timestamp, timestamp step) of 2^12 x 2^12 values incl. both directions of the 2^32 wrap and the 2^31 half-range; loss step: from an ARBITRARY 64-packet bitmap right after a report, one forward jump of 1..6 from any sequence number (wrap included); loss accounting: 3 packets (jumps +-3, any base incl. sequence wrap), report after a symbolic prefix and at the end, bitmap of 64 packets (size=1 word, same code as 128 words); LSR/DLSR: two SRs, elapsed window [0,2^20) ns at base 0 and at the 2^32-unit wrap of DLSR",
                 thorough="4 packets, jumps +-4"),
     outside=["production history size 8192 packets (struct built with 1 word)", "more than 4 packets per history / jumps >4", "packets arriving for an interval that was already reported", "receiver interceptor tick loop"],
     assumptions=["float64->uintN conversions as go1.24/amd64", "FP queries decided by cvc5/z3 portfolio, one-shot"],
@@ -144,7 +145,7 @@ CHECKS["C14"] = dict(
 )
 
 CHECKS["C19"] = dict(
-    jobs=[dict(pkg="pkg/stats", entry="HC19Recount", params=dict(events=2), require_covers=["incoming rtp counted", "XR first in a compound packet"], thorough=dict(params=dict(events=3), timeout=3400))],
+    jobs=[dict(pkg="pkg/stats", entry="HC19Recount", params=dict(events=2), require_covers=["incoming rtp counted", "XR first in a compound packet", "report block for the stream after another block"], thorough=dict(params=dict(events=3), timeout=3400))],
     bounds=dict(quick="one recorder (SSRC 100), 2 events chosen from {incoming RTP, outgoing RTP, incoming RTCP compound of 2 packets out of NACK/PLI/FIR/XR, outgoing RTCP NACK/PLI/FIR}, each addressed to the stream or to another SSRC (symbolic), sequence numbers base+-3 for any base incl. wrap, payload length 0..1460; counters compared with a recount",
                 thorough="3 events"),
     outside=["RR/SR/DLRR derived figures (RTT, remote loss, jitter)", "the interceptor fan-out and the Queue*/channel plumbing", "a stream whose first sequence number is below the reordering distance (unwrapper corner)", "FIR whose media SSRC field is 0 (RFC 5104 form)"],
